@@ -205,6 +205,12 @@ class Explorer:
                 if r == z3.unsat:
                     return False, None
                 return True, model_dict(sv.model())
+            import os
+            if os.environ.get("VF_DUMP_HARD"):
+                from sxl import crosscheck
+                smt, nn, nv = crosscheck.smtlib(list(self.pc) + list(bits))
+                with open(os.path.join(os.environ["VF_DUMP_HARD"], "hard_%d_%d.smt2" % (os.getpid(), self.stats["obligations"])), "w") as f:
+                    f.write(smt)
             raise Inconclusive("solver unknown (exact encoding): %s" % sv.reason_unknown())
         finally:
             self.stats["solver_s"] += time.time() - t
